@@ -15,6 +15,11 @@ def loaderD (op : String) (args : List Nat) : Option String :=
         if w == 0 || rank ≥ w then reject else
         ok (eNats (selectValid n skip lim ff rank w invalid) ++ [minItems n skip lim])
       | none => reject
+  | "selectstall" => some <| match args with
+      -- the same loader while one worker is held up for several seconds of wall time after it processed item
+      -- `k`: the model has no clock, the answer is that of `select`
+      | _ms :: _k :: rest => (loaderD "select" rest).getD reject
+      | _ => reject
   | _ => none
 
 end Tu.Drive
